@@ -15,7 +15,7 @@ from vt import dump as D
 from vt.gen import grammar as G
 from vt.gen import inputs as I
 from vt.harness import Outcome, exc_bucket
-from vt.ref import peg
+from vt.ref import engine, peg
 
 ID = "C01"
 LEVEL = "exploration"
@@ -74,8 +74,10 @@ def make_metamodel(g, cfg, **extra):
 
 # one compatibility switch of the reference per recorded finding: a disagreement that disappears when
 # exactly one switch is on is attributed to that finding, everything else is new
-QUIRKS = [("abstract_first_nt", "abstract_all_match_first_nonterminal"),
-          ("trailing_sep_node", "trailing_separator_node")]
+QUIRKS = [(("abstract_first_nt",), "abstract_all_match_first_nonterminal"),
+          (("trailing_sep_node",), "trailing_separator_node"),
+          # both recorded findings in one parse (R1: R3 ',' | R2; R3: STRING+[','] on '"s" ,'); tried last
+          (("abstract_first_nt", "trailing_sep_node"), "abstract_all_match_first_nonterminal+trailing_separator_node")]
 
 
 def ref_diff(g, cfg, text, textx_dump, ref_model):
@@ -85,7 +87,7 @@ def ref_diff(g, cfg, text, textx_dump, ref_model):
         return None
     detail = f"at {df[1]}: textX {df[2]} reference"
     for quirk, label in QUIRKS:
-        res2, _ = peg.parse(g, cfg, text, quirks=(quirk,))
+        res2, _ = peg.parse(g, cfg, text, quirks=quirk)
         if res2[0] == "ok" and D.diff(textx_dump, D.dump_ref(res2[1])) is None:
             return ("known", label, detail)
     return ("new", df[0], detail)
@@ -161,16 +163,33 @@ def evaluate(case):
         except TextXSemanticError as e:
             got = ("semantic", e)
         ctx = f"grammar={gtext!r} cfg={cfg} input={text!r}"
+        if g.get("comment") and {res[0], got[0]} == {"ok", "syntax"}:
+            # causal attribution to the engine's comment cache (F-C01d): does textX agree with the reference once
+            # nothing is remembered about comments?
+            with engine.no_comment_cache():
+                try:
+                    mm.model_from_str(text)
+                    again = "ok"
+                except TextXSyntaxError:
+                    again = "syntax"
+                except TextXSemanticError:
+                    again = "semantic"
+            if again == res[0]:
+                sfx_case = "/engine:comment_cache"
+            else:
+                sfx_case = sfx
+        else:
+            sfx_case = sfx
         if res[0] == "syntax":
             rejected += 1
             if got[0] == "ok":
-                out.add("accept/textx_accepts_reference_rejects" + sfx, ctx + f" (reference fails at {res[1]})")
+                out.add("accept/textx_accepts_reference_rejects" + sfx_case, ctx + f" (reference fails at {res[1]})")
             elif got[0] == "semantic":
                 out.add("semantic_error_on_rejected_input", ctx + f": {got[1]}")
             continue
         accepted += 1
         if got[0] == "syntax":
-            out.add("accept/textx_rejects_reference_accepts" + sfx, ctx + f": {got[1]}")
+            out.add("accept/textx_rejects_reference_accepts" + sfx_case, ctx + f": {got[1]}")
             continue
         if got[0] == "semantic":
             et = getattr(got[1], "err_type", None)
@@ -187,7 +206,7 @@ def evaluate(case):
         if df:
             # attribution to a recorded finding: does the disagreement vanish under exactly that quirk?
             for quirk, label in QUIRKS:
-                res2, _ = peg.parse(g, cfg, text, quirks=(quirk,))
+                res2, _ = peg.parse(g, cfg, text, quirks=quirk)
                 if res2[0] == "ok" and D.diff(a, D.dump_ref(res2[1])) is None:
                     out.add("known/" + label, ctx + f" at {df[1]}: textX {df[2]} reference")
                     break
